@@ -262,6 +262,11 @@ impl Mon {
             IoTarget::JournalCreate => c.kind == Kind::Create && is_journal(c.rel),
             IoTarget::JournalTruncate => c.kind == Kind::Truncate && is_journal(c.rel),
             IoTarget::DirSync => c.kind.is_sync() && c.rel.is_empty(),
+            IoTarget::MetaDuringDelete => {
+                IN_DELETE.load(std::sync::atomic::Ordering::SeqCst)
+                    && c.rel.starts_with("keyspaces/0/")
+                    && matches!(c.kind, Kind::Create | Kind::Write | Kind::Fsync | Kind::Fdatasync | Kind::Rename | Kind::Mkdir)
+            }
         }
     }
 
@@ -385,6 +390,9 @@ pub fn uninstall() {
     interpose::untrack();
     *interpose::SYNC_DONE.lock().unwrap() = None;
 }
+
+/// set by the SEQ engine while `Database::delete_keyspace` runs (fault target MetaDuringDelete)
+pub static IN_DELETE: std::sync::atomic::AtomicBool = std::sync::atomic::AtomicBool::new(false);
 
 /// Logical content of a database directory as seen through the public API after opening it.
 pub fn read_dir_state(dir: &Path, cfg: &Cfg) -> Result<BTreeMap<KsIdx, Map>, String> {
